@@ -26,6 +26,7 @@ import (
 	"github.com/ozontech/file.d/fd"
 	"github.com/ozontech/file.d/pipeline"
 	"github.com/ozontech/file.d/plugin/input/fake"
+	_ "github.com/ozontech/file.d/plugin/action/split"
 	_ "github.com/ozontech/file.d/plugin/output/elasticsearch"
 	_ "github.com/ozontech/file.d/plugin/output/http"
 	"github.com/ozontech/file.d/zzverif/fdkit"
@@ -45,6 +46,11 @@ type FDCase struct {
 	// (the outputs' HTTP client does not follow redirects), nor is 429 (back-pressure) or 408: only 400 and 413
 	// are documented as answers the elasticsearch output gives up on at once.
 	FailStatus int `json:"fail_status,omitempty"`
+	// Split: a split action turns every source event into two children (which the outputs deliver) and
+	// a parent (which travels with them only to be committed). Generated only when the primary refuses
+	// everything or nothing, or without a dead queue: a parent committed by one batcher while its children
+	// sit in the other one is the known finding "dead-queue batcher commits independently".
+	Split bool `json:"split,omitempty"`
 }
 
 func genFD(t *rapid.T) FDCase {
@@ -64,6 +70,9 @@ func genFD(t *rapid.T) FDCase {
 		c.DQType = c.OutType // the documented "reserve cluster" set-up
 	default:
 		c.DQType = rapid.SampledFrom(types).Draw(t, "dq_type")
+	}
+	if c.FailFirst <= 0 || c.DQType == "" {
+		c.Split = rapid.IntRange(0, 3).Draw(t, "split") == 0
 	}
 	return c
 }
@@ -120,11 +129,19 @@ func runFD(c FDCase) *vkit.Outcome {
 		out["deadqueue"] = section(c.DQType, reserve.URL, c.DQRetry)
 	}
 	name := fdkit.UniqueName("c09fd")
-	conf := map[string]any{"pipelines": map[string]any{name: map[string]any{
+	pconf := map[string]any{
 		"settings": map[string]any{"capacity": 64},
 		"input":    map[string]any{"type": "fake"},
 		"output":   out,
-	}}}
+	}
+	if c.Split {
+		if c.FailFirst > 0 && c.DQType != "" {
+			o.Class("invalid-case")
+			return o
+		}
+		pconf["actions"] = []any{map[string]any{"type": "split", "field": "items"}}
+	}
+	conf := map[string]any{"pipelines": map[string]any{name: pconf}}
 	b, _ := json.Marshal(conf)
 	dir, err := os.MkdirTemp("", "verif-c09fd")
 	if err != nil {
@@ -159,7 +176,11 @@ func runFD(c FDCase) *vkit.Outcome {
 		mu.Unlock()
 	})
 	for i := 0; i < c.Events; i++ {
-		in.In(0, "c09fd", pipeline.NewOffsets(int64(i+1), nil), []byte(fmt.Sprintf(`{"id":"%d"}`, i)))
+		doc := fmt.Sprintf(`{"id":"%d"}`, i)
+		if c.Split {
+			doc = fmt.Sprintf(`{"id":"%d","items":[{"id":"%d"},{"id":"%d"}]}`, i, 1000+2*i, 1001+2*i)
+		}
+		in.In(0, "c09fd", pipeline.NewOffsets(int64(i+1), nil), []byte(doc))
 	}
 	total := func() int {
 		mu.Lock()
@@ -182,28 +203,62 @@ func runFD(c FDCase) *vkit.Outcome {
 		time.Sleep(3 * time.Millisecond)
 	}
 	time.Sleep(30 * time.Millisecond) // second deliveries / commits would follow shortly
+	// C05: nothing is travelling any more, so every event is back in the pool
+	inUse := p.VerifPoolInUse()
+	for t0 := time.Now(); inUse != 0 && time.Since(t0) < 500*time.Millisecond; inUse = p.VerifPoolInUse() {
+		time.Sleep(5 * time.Millisecond)
+	}
 	mu.Lock()
 	defer mu.Unlock()
 	what := fmt.Sprintf("output %s (retry %d, primary answers %d to %d request(s)), dead queue %q, batch size %d, %d events; primary endpoint hit %d times, dead-queue endpoint %d times", c.OutType, c.Retry, c.FailStatus, c.FailFirst, c.DQType, c.BatchSize, c.Events, primaryHits.Load(), reserveHits.Load())
 	gaveUp := false
 	for i := 0; i < c.Events; i++ {
 		id := fmt.Sprint(i)
+		// what the endpoints are to receive for this source event: the event, or its two children
+		what := what
+		parts := []string{id}
+		if c.Split {
+			parts = []string{fmt.Sprint(1000 + 2*i), fmt.Sprint(1001 + 2*i)}
+			what += "; split action"
+			if primaryGot[id] > 0 || reserveGot[id] > 0 {
+				o.Failf(P, "fd-config:parent-of-a-split-delivered", "%s: the parent event %s was delivered", what, id)
+			}
+		}
+		both, twice, missing := false, false, false
+		for _, part := range parts {
+			both = both || (primaryGot[part] > 0 && reserveGot[part] > 0)
+			twice = twice || primaryGot[part] > 1 || reserveGot[part] > 1
+			missing = missing || (primaryGot[part] == 0 && reserveGot[part] == 0)
+			if reserveGot[part] > 0 {
+				gaveUp = true
+			}
+		}
+		got := fmt.Sprintf("deliverable ids %v: primary accepted %v, dead-queue endpoint got %v", parts, countsOf(primaryGot, parts), countsOf(reserveGot, parts))
 		switch {
-		case primaryGot[id] > 0 && reserveGot[id] > 0:
-			o.Failf(P, "fd-config:event-accepted-by-primary-and-dead-queue", "%s: event %s was accepted by the primary endpoint and also delivered to the dead queue", what, id)
-		case primaryGot[id] > 1 || reserveGot[id] > 1:
-			o.Failf(P, "fd-config:event-delivered-twice", "%s: event %s accepted %d times by the primary, %d times by the dead-queue endpoint", what, id, primaryGot[id], reserveGot[id])
-		case commits[id] == 0 && c.DQType != "" && primaryGot[id] == 0 && reserveGot[id] == 0:
-			o.Failf(P, "fd-config:given-up-event-not-at-dead-queue-endpoint", "%s: event %s was never accepted by the primary, never arrived at the dead queue's own endpoint and was never committed", what, id)
+		case both:
+			o.Failf(P, "fd-config:event-accepted-by-primary-and-dead-queue", "%s: event %s was accepted by the primary endpoint and also delivered to the dead queue (%s)", what, id, got)
+		case twice:
+			o.Failf(P, "fd-config:event-delivered-twice", "%s: event %s: %s", what, id, got)
+		case commits[id] == 0 && c.DQType != "" && missing:
+			o.Failf(P, "fd-config:given-up-event-not-at-dead-queue-endpoint", "%s: event %s was never accepted by the primary, never arrived at the dead queue's own endpoint and was never committed (%s)", what, id, got)
 		case commits[id] == 0:
-			o.Failf(P, "fd-config:event-never-committed", "%s: event %s (primary accepted %d, dead queue got %d) was never committed", what, id, primaryGot[id], reserveGot[id])
+			o.Failf(P, "fd-config:event-never-committed", "%s: event %s (%s) was never committed", what, id, got)
 		case commits[id] > 1:
 			o.Failf(P, "fd-config:event-committed-twice", "%s: event %s committed %d times", what, id, commits[id])
-		case c.DQType != "" && primaryGot[id] == 0 && reserveGot[id] == 0:
-			o.Failf(P, "fd-config:committed-without-delivery", "%s: event %s was committed but neither endpoint accepted it", what, id)
+		case c.DQType != "" && missing:
+			o.Failf(P, "fd-config:committed-without-delivery", "%s: event %s was committed but neither endpoint accepted it (%s)", what, id, got)
 		}
-		if reserveGot[id] > 0 {
-			gaveUp = true
+	}
+	if inUse != 0 {
+		o.Failf("C05", "fd-config:events-in-use-when-idle", "%s: the pipeline is idle and %d of its pool events are still in use (%d of %d source events committed)\n%s", what, inUse, len(commits), c.Events, p.VerifPoolDump())
+	}
+	if c.Split || gaveUp {
+		o.Nontrivial("C05")
+	}
+	if c.Split {
+		o.Class("fd-config:split-action")
+		if gaveUp {
+			o.Class("fd-config:children-and-parents-through-the-dead-queue")
 		}
 	}
 	if c.FailFirst < 0 && int(primaryHits.Load()) < c.Retry+1 {
@@ -222,6 +277,14 @@ func runFD(c FDCase) *vkit.Outcome {
 	return o
 }
 
-var propFD = vkit.NewProp([]string{P}, "c09fdconfig", genFD, runFD)
+func countsOf(m map[string]int, ids []string) []int {
+	out := make([]int, len(ids))
+	for i, id := range ids {
+		out[i] = m[id]
+	}
+	return out
+}
 
-func TestC09FDConfig(t *testing.T) { propFD.Check(t) }
+var propFD = vkit.NewProp([]string{P, "C05"}, "c09fdconfig", genFD, runFD)
+
+func TestC09FDConfig(t *testing.T) { propFD.CrashFile = true; propFD.Check(t) }
